@@ -1,16 +1,18 @@
 # Proposed CHECKS entry for C02 (auto-loaded by /verif/checks_config.py; T(...) is the helper defined there).
-# Measured on the 16-core sandbox (other jobs running): gate sweep ~0.7-0.9 s per case (a case is one fixture
-# + ~20 requests, each with a twin probe and 2-3 snapshots; ~25 ms per request), read stability ~0.9 s per
-# history, directed sweep ~45 s for all 36 (type, mode) jobs in one process (sharded by job).  All shards of all
-# tests run in parallel, so quick wall ~ max(45 x 0.85, 40 x 0.9, 45/4) ~ 40 s; thorough ~ 5-6 min.
+# Measured on the 16-core sandbox with the 12 quick-tier processes running in parallel (other agents' jobs running
+# too): gate sweep ~1.0 s per case (one fixture + ~22 requests, each with a twin probe and 2-3 snapshots; ~25 ms
+# per request when run alone), read stability ~1.05 s per history, directed sweep 45 s for all 36 (type, mode) jobs
+# in one process, 5-25 s per shard on 4 shards.  Quick emulation (40 / 35 cases x 4 shards + directed, 12 processes
+# in parallel): 45-48 s wall on three seeds, 336 evaluations, ~4800 requests -> proposed 36 / 30 (~42 s).
+# Thorough: 48 jobs on 16 workers, (220 x 1.05 + 200 x 1.1 + 10) s ~ 7.7 min.
 ENTRY = {
     "C02": {
         "pkg": "c02",
         "level": "exploration",
         "tests": [
             T("TestC02GateSweepDirected", (1, 4), (1, 16), rapid=False),
-            T("TestC02GateSweep", (45, 4), (330, 16)),
-            T("TestC02ReadStability", (40, 4), (300, 16)),
+            T("TestC02GateSweep", (36, 4), (220, 16)),
+            T("TestC02ReadStability", (30, 4), (200, 16)),
         ],
         "required_classes": [
             "directed/mode=default", "directed/mode=read-only", "directed/type=labelmap", "directed/type=keyvalue", "directed/type=neuronjson",
